@@ -404,6 +404,9 @@ func ruleGuardDefs(c *Ctx, rule string) {
 			if !found {
 				bad = "returns " + w.key(v) + " at " + w.instrPos(ret) + " without the test  returned.Number == number"
 			}
+			if !derivesFromTable(w, v, w.Field("allocation", "Allocation", "channelBindings")) {
+				bad = "returns " + w.desc(v) + " at " + w.instrPos(ret) + ", which is not an element read from the live channelBindings table"
+			}
 		}
 		if bad == "" && n > 0 {
 			c.OK(rule, fname(fn), "GetChannelByNumber", w.pos(fn.Pos()), fmt.Sprintf("%d non-nil return(s), each on the cb.Number == number edge for the returned element", n))
